@@ -50,6 +50,7 @@ CLAUSES = {
     'delete-not-idempotent': 'deleting an absent checkpoint changes nothing',
     'delete-not-local': 'deleting a checkpoint touches only its key',
     'delete-process-not-exact': "deleting a process's checkpoints removes all and only that process's tags",
+    'failed-save-not-atomic': 'a save that fails leaves the stored checkpoints (that key included) as they were',
     'snapshot-not-immutable': 'a stored snapshot is unaffected by anything the live process does afterwards',
     'persisters-differ': 'the in-memory and the pickle persister are observationally equivalent',
 }
@@ -113,7 +114,9 @@ def make_ids(rng, kind, n):
 def case_lines(case):
     head = f"case {case['label']} P {' '.join(case['pids'])} T {' '.join(case['tags'])}"
     # `recreate p t` (load, unbundle, run the recreated process) is a `load p t` as far as the store is concerned
-    return [head] + [' '.join(['load'] + list(op[1:]) if op[0] == 'recreate' else op) for op in case['ops']]
+    # ... and `failsave p t` (a save that raises while the bundle is being built) is a `list` (nothing changes, the keys are listed)
+    return [head] + [' '.join(['load'] + list(op[1:]) if op[0] == 'recreate' else ['list'] if op[0] == 'failsave' else op)
+                     for op in case['ops']]
 
 
 def universe(case):
@@ -201,6 +204,13 @@ class Runner:
             return st
         if name == 'load':
             return self.load(P, op[1], op[2])
+        if name == 'failsave':
+            self.procs[op[1]].__dict__['_fail_save'] = True
+            st, _ = self.call(lambda: P.save_checkpoint(self.procs[op[1]], val(op[2])))
+            self.procs[op[1]].__dict__.pop('_fail_save', None)
+            if st == 'ok':
+                return 'failsave-did-not-raise'
+            return self.listing(*self.call(P.get_checkpoints))      # a failed save leaves everything as it was
         if name == 'recreate':
             res = self.load(P, op[1], op[2])
             if res.startswith('ok'):
@@ -243,8 +253,8 @@ class Runner:
         if name in ('load', 'recreate'):
             k = (op[1], op[2])
             return f'ok:{self.store[k]}' if k in self.store else 'missing'
-        if name in ('list', 'listp'):
-            keys = sorted((k for k in self.store if name == 'list' or k[0] == op[1]), key=lambda k: key_str(*k))
+        if name in ('list', 'listp', 'failsave'):
+            keys = sorted((k for k in self.store if name in ('list', 'failsave') or k[0] == op[1]), key=lambda k: key_str(*k))
             return '[' + ','.join(key_str(*k) for k in keys) + ']'
         if name == 'del':
             self.store.pop((op[1], op[2]), None)
@@ -280,6 +290,8 @@ class Runner:
             return 'load-not-latest-snapshot' if res != exp_res else 'snapshot-not-immutable'
         if name in ('list', 'listp'):
             return 'list-not-exact' if res != exp_res else 'load-not-pure'
+        if name == 'failsave':
+            return 'failed-save-not-atomic'
         if name == 'del':
             if res != 'ok':
                 return 'delete-raised'
@@ -364,7 +376,7 @@ def alphabet(pids, tags, mutators_only=False):
     ops += [['delp', p] for p in pids] + [['progress', p] for p in pids]
     if not mutators_only:
         ops += [['load', p, t] for p in pids for t in ts] + [['listp', p] for p in pids] + [['list']]
-        ops += [['recreate', p, '-'] for p in pids]
+        ops += [['recreate', p, '-'] for p in pids] + [['failsave', p, '-'] for p in pids]
     return ops
 
 
@@ -389,7 +401,7 @@ def exhaustive_cases(ctx):
     return cases, dict(full_alphabet_len=full_len, mutators_len=mut_len, longest_start_with_save=not ctx.thorough)
 
 
-WEIGHTS = [('save', 30), ('load', 14), ('list', 4), ('listp', 5), ('del', 16), ('delp', 7), ('progress', 24), ('recreate', 10)]
+WEIGHTS = [('save', 30), ('load', 14), ('list', 4), ('listp', 5), ('del', 16), ('delp', 7), ('progress', 24), ('recreate', 10), ('failsave', 8)]
 
 
 def random_ops(rng, pids, tags, n):
@@ -400,7 +412,7 @@ def random_ops(rng, pids, tags, n):
     for _ in range(n):
         name = rng.choices(names, weights)[0]
         p = rng.choice(pids)
-        if name in ('save', 'load', 'del', 'recreate'):
+        if name in ('save', 'load', 'del', 'recreate', 'failsave'):
             ops.append([name, p, rng.choice(ts)])
         elif name == 'list':
             ops.append([name])
